@@ -81,6 +81,8 @@ B_C02 == /\ (ConvergedS(Final) \/ StuckS(Final))
 B_C12 == StatusTruthS(Final)
 \* C03 (last clause): no reconcile of the behaviour took away a pod that was desired, live, up to date and correctly cached
 B_C03 == \A k \in 1..Len(Steps) : IsRec(k) => NoCollateralStep(Before(k), After(k))
+\* C07 over the behaviour: one pod at a time, and the current revision never advances early
+B_C07 == \A k \in 1..Len(Steps) : IsRec(k) => (OneDownStep(Before(k), After(k)) /\ CurAdvanceStep(Before(k), After(k)))
 \* C08: no reconcile of an unchanged template changed the update revision or added a revision
 B_C08 == \A k \in 1..Len(Steps) : IsRec(k) => NoRestartStep(Before(k), After(k), Steps[k].res)
 
